@@ -7,10 +7,10 @@ def run(res):
     # overlapping waits of different lengths against uneven dt: the shared resetting timer must agree with
     # per-coroutine time (TimerInvariant, WakeExactlyOnTime); coroutines are started at any time, in any order
     S3 = {'g1': (('y', 2), ('y', 0), ('y', 3)), 'g2': (('y', 0), ('y', 3), ('y', -1)), 'g3': (('y', 1), ('y', 1))}
-    K = dict(G=('g1', 'g2', 'g3'), Script=S3, Dts={0, 1, 2}, MaxTimer=8, WithKill=False, StartCancelsPendingKill=True)
+    K = dict(G=('g1', 'g2', 'g3'), Script=S3, Dts={0, 1, 2}, MaxTimer=8, WithKill=False, StartCancelsPendingKill=True, FinishDropsKillMark=True)
     cc.check_and_replay(res, 'c08_timing', K, depth_all=5 if th else 4, walks=20000 if th else 3000, walk_len=40)
     if th:
         # longer waits, dt up to 4, kills in the mix: model checking only (too large to dump)
         S3b = {'g1': (('y', 2), ('y', 5), ('y', 0)), 'g2': (('y', 3), ('y', 0), ('y', 1)), 'g3': (('y', 1), ('y', 2), ('y', 3))}
-        Kb = dict(G=('g1', 'g2', 'g3'), Script=S3b, Dts={0, 1, 2, 4}, MaxTimer=12, WithKill=True, StartCancelsPendingKill=True)
+        Kb = dict(G=('g1', 'g2', 'g3'), Script=S3b, Dts={0, 1, 2, 4}, MaxTimer=12, WithKill=True, StartCancelsPendingKill=True, FinishDropsKillMark=True)
         cc.check_and_replay(res, 'c08_timing_large', Kb, dump=False)
